@@ -178,7 +178,8 @@ def run_shard(shard):
         from inscripta.biocantor.io.gff3.parser import filter_and_sort_qualifiers
 
         reserved = ["Name", "Parent", "ID", "transcript_id", "transcript_name", "transcript_biotype", "protein_id", "product", "gene_id", "gene_name", "gene_biotype", "feature_id", "feature_name", "feature_collection_name", "feature_collection_id", "feature_collection_type", "feature_type", "locus_tag"]
-        free = ["note", "color", "zeta", "Alpha", "db_xref"]
+        # (look-alikes of reserved keys are ordinary keys: other letter case, a reserved word as prefix / suffix)
+        free = ["note", "color", "zeta", "Alpha", "db_xref", "Product", "LOCUS_TAG", "Gene_ID", "PARENT", "Id", "my_id", "product2"]
         for k in range(0, 4):
             for ordered in itertools.permutations(reserved[:8] + free, k):
                 d = {key: ["b", "a", "c"][: 1 + (len(key) % 3)] for key in ordered}
@@ -215,7 +216,7 @@ def replay(case):
     if k == "nameid":
         check_nameid(res, tuple(case["keys"]), case["spell"], case["deco"])
         return res.deviations
-    if k == "genbank":
+    if k in ("genbank", "genbank-dup"):
         from checks import c18_genbank
 
         c18_genbank.replay(res, case)
